@@ -342,6 +342,20 @@ def gen_shape(r, model_kind):
     kinds = sorted(r.choice([0, 1, 1, 1, 2] if model_kind == "init" else [1, 1, 2]) for _ in range(n))
     flds = []
     seen_optional = False
+    # in 30% of the models all value defaults are look-alikes of ONE number (1, True, 1.0, Decimal(1), Fraction(1), IE(1),
+    # MyInt(1), 1+0j, and containers of them): equal and hash-equal, so anything keyed by the value confuses them
+    family = r.choice([0, 1, 1, 2]) if r.random() < 0.3 else None
+
+    def family_val():
+        c = r.randrange(5)
+        base = [("int", family), ("bool", bool(family)) if family < 2 else ("int", family), ("float", family),
+                ("look", r.randrange(len(LOOK)), family), ("look", r.randrange(len(LOOK)), family)][c]
+        w = r.random()
+        if w < 0.15:
+            return ("tuple", [base])
+        if w < 0.25 and model_kind != "dataclass":
+            return ("list", [base])
+        return base
     for i, k in enumerate(kinds):
         choices = ["none", "value", "value"]
         if model_kind in ("dataclass", "attrs"):
@@ -358,7 +372,7 @@ def gen_shape(r, model_kind):
         if d == "none":
             default = ("none",)
         elif d == "value":
-            default = ("value", gen_val(r, 2, hashable=(model_kind == "dataclass")))
+            default = ("value", family_val() if family is not None else gen_val(r, 2, hashable=(model_kind == "dataclass")))
         elif d == "factory":
             default = ("factory", r.choice(["list", "dict", "tuple", "str", "bytes", "nonetype"]))
         elif d == "userfactory":
